@@ -14,6 +14,13 @@ Section SInd.
   Hypothesis HS : forall fs, Forall P fs -> P (SStruct fs).
   Hypothesis HP : P SPoint.
   Hypothesis HO : P SOpaque.
+  Hypothesis HLI : forall e, P e -> P (SListI e).
+  Hypothesis HTB : P STagBytes.
+  Hypothesis HBN : forall n, P (SBytesN n).
+  Hypothesis HTA : P STagAny.
+  Hypothesis HA : P SAny.
+  Hypothesis HM : forall ind w e, P e -> P (SMapU ind w e).
+  Hypothesis HPe : P SPeer.
   Fixpoint schema_ind' (s : schema) : P s :=
     match s with
     | SUInt w => HU w | SBool => HB | SBytes => HBy | SText => HT | SRaw => HR
@@ -21,6 +28,8 @@ Section SInd.
     | SStruct fs => HS fs ((fix go (l : list schema) : Forall P l :=
                               match l with [] => Forall_nil P | x :: r => Forall_cons x (schema_ind' x) (go r) end) fs)
     | SPoint => HP | SOpaque => HO
+    | SListI e => HLI e (schema_ind' e) | STagBytes => HTB | SBytesN n => HBN n | STagAny => HTA | SAny => HA
+    | SMapU ind w e => HM ind w e (schema_ind' e) | SPeer => HPe
     end.
 End SInd.
 
@@ -47,6 +56,87 @@ Fixpoint dec_fields (pt : item -> option value) (fs : list schema) (xs : list it
   | f :: fr, x :: xr => match dec_g pt f x, dec_fields pt fr xr with Some v, Some vs => Some (v :: vs) | _, _ => None end
   | _, _ => None
   end.
+
+Fixpoint enc_kvs (e : schema) (kvs : list (N * value)) : option (list (item * item)) :=
+  match kvs with
+  | [] => Some []
+  | (k, v) :: r => match enc_s e v, enc_kvs e r with Some x, Some xs => Some ((UInt (min_form k) k, x) :: xs) | _, _ => None end
+  end.
+Fixpoint dec_kvs (pt : item -> option value) (w : N) (e : schema) (prev : N) (kvs : list (item * item)) : option (list (N * value)) :=
+  match kvs with
+  | [] => Some []
+  | (k, x) :: r =>
+      match dec_key w prev k with
+      | Some k' => match dec_g pt e x, dec_kvs pt w e k' r with Some v, Some vs => Some ((k', v) :: vs) | _, _ => None end
+      | None => None
+      end
+  end.
+
+Lemma enc_s_listi e vs : enc_s (SListI e) (VList vs) = option_map (fun xs => Arr None xs) (enc_list e vs).
+Proof. cbn [enc_s]. f_equal. induction vs as [|v r IH]; [reflexivity|]. cbn [enc_list]. rewrite <- IH. reflexivity. Qed.
+
+Lemma dec_g_listi pt e i : dec_g pt (SListI e) i =
+  if is_nil (strip i) then Some (VList []) else
+  match strip i with Arr _ xs => option_map VList (dec_list pt e xs) | _ => None end.
+Proof.
+  cbn [dec_g zero]. destruct (is_nil (strip i)); [reflexivity|]. destruct (strip i); try reflexivity.
+  f_equal. induction xs as [|x r IH]; [reflexivity|]. cbn [dec_list]. rewrite <- IH. reflexivity.
+Qed.
+
+Lemma enc_s_map ind w e kvs : enc_s (SMapU ind w e) (VMap kvs) =
+  if sorted_keys w kvs then option_map (fun xs => Map (if ind then None else Some (min_form (len xs))) xs) (enc_kvs e kvs) else None.
+Proof.
+  cbn [enc_s]. destruct (sorted_keys w kvs); [|reflexivity]. f_equal.
+  induction kvs as [|[k v] r IH]; [reflexivity|]. cbn [enc_kvs]. rewrite <- IH. reflexivity.
+Qed.
+
+Lemma dec_g_map pt ind w e i : dec_g pt (SMapU ind w e) i =
+  if is_nil (strip i) then Some (VMap []) else
+  match strip i with
+  | Map _ kvs => match dec_kvs pt w e 0 kvs with
+                 | Some l => if nodup_keys (map fst l) then Some (VMap l) else None
+                 | None => None end
+  | _ => None end.
+Proof.
+  cbn [dec_g zero]. destruct (is_nil (strip i)); [reflexivity|]. destruct (strip i); try reflexivity.
+  assert (E : forall l prev, (fix go (prev : N) (kvs : list (item * item)) : option (list (N * value)) :=
+                     match kvs with
+                     | [] => Some []
+                     | (k, x) :: r =>
+                         match dec_key w prev k with
+                         | Some k' => match dec_g pt e x, go k' r with Some v, Some vs => Some ((k', v) :: vs) | _, _ => None end
+                         | None => None
+                         end
+                     end) prev l = dec_kvs pt w e prev l).
+  { induction l as [|[k x] r IH]; intros prev; [reflexivity|]. cbn [dec_kvs]. destruct (dec_key w prev k); [|reflexivity].
+    rewrite <- IH. reflexivity. }
+  rewrite E. reflexivity.
+Qed.
+
+(* strictly ascending keys are pairwise distinct *)
+Lemma sorted_lower {A} w : forall (kvs : list (N * A)) k v, sorted_keys w ((k, v) :: kvs) = true ->
+  Forall (fun kv => k < fst kv) kvs.
+Proof.
+  induction kvs as [|[k1 v1] r IH]; intros k v H; [constructor|].
+  cbn [sorted_keys] in H. apply andb_true_iff in H. destruct H as [H1 H2]. apply andb_true_iff in H1. destruct H1 as [_ H1].
+  apply N.ltb_lt in H1. constructor; [exact H1|].
+  pose proof (IH k1 v1 H2) as F. eapply Forall_impl; [|exact F]. cbn. intros a Ha. lia.
+Qed.
+
+Lemma sorted_nodup {A} w : forall (kvs : list (N * A)), sorted_keys w kvs = true -> nodup_keys (map fst kvs) = true.
+Proof.
+  induction kvs as [|[k v] r IH]; intros H; [reflexivity|]. cbn [map fst nodup_keys].
+  pose proof (sorted_lower w r k v H) as F.
+  cbn [sorted_keys] in H. apply andb_true_iff in H. destruct H as [_ H2]. rewrite (IH H2), andb_true_r.
+  apply negb_true_iff. apply not_true_is_false. intros E. apply existsb_exists in E. destruct E as (x & Hin & Ex).
+  apply N.eqb_eq in Ex. subst x. apply in_map_iff in Hin. destruct Hin as ([k' v'] & E1 & Hin). cbn in E1. subst k'.
+  rewrite Forall_forall in F. specialize (F _ Hin). cbn in F. lia.
+Qed.
+
+Lemma fixn_exact n bs : len bs = n -> fixn n bs = bs.
+Proof.
+  intros <-. unfold fixn, len. rewrite Nat2N.id, firstn_app, Nat.sub_diag, firstn_all. cbn. apply app_nil_r.
+Qed.
 
 Lemma enc_s_list e vs : enc_s (SList e) (VList vs) =
   option_map (fun xs => Arr (Some (min_form (len xs))) xs) (enc_list e vs).
@@ -100,14 +190,14 @@ Definition point_ok (pt : item -> option value) : Prop :=
 
 Lemma dec_enc_g pt : point_ok pt -> forall s v i, enc_s s v = Some i -> dec_g pt s i = Some v.
 Proof.
-  intros [P0 P2]. induction s as [w| | | | |e IH|fs IH| |] using schema_ind'; intros v i E.
+  intros [P0 P2]. induction s as [w| | | | |e IH|fs IH| | |e IH| |n| | |ind w e IH|] using schema_ind'; intros v i E.
   - destruct v; try discriminate. cbn [enc_s] in E. destruct (n <? 2 ^ w) eqn:L; [|discriminate].
     injection E as <-. cbn [dec_g strip is_nil dec_uint]. unfold fit. rewrite L. reflexivity.
   - destruct v; try discriminate. injection E as <-. destruct b; reflexivity.
   - destruct v; try discriminate. injection E as <-. reflexivity.
   - destruct v; try discriminate. injection E as <-. reflexivity.
   - destruct v; try discriminate. injection E as <-. reflexivity.
-  - destruct v as [| | | | |vs| | |]; try discriminate. rewrite enc_s_list in E.
+  - destruct v as [| | | | |vs| | | | | | | |]; try discriminate. rewrite enc_s_list in E.
     destruct (enc_list e vs) as [xs|] eqn:EL; [|discriminate]. injection E as <-.
     rewrite dec_g_list. cbn [strip is_nil].
     assert (G : dec_list pt e xs = Some vs).
@@ -116,7 +206,7 @@ Proof.
       - destruct (enc_s e v) as [x|] eqn:Ev; [|discriminate]. destruct (enc_list e r) as [xr|] eqn:Er; [|discriminate].
         injection EL as <-. cbn [dec_list]. rewrite (IH _ _ Ev), (IHr _ eq_refl). reflexivity. }
     rewrite G. reflexivity.
-  - destruct v as [| | | | | |vs| |]; try discriminate. rewrite enc_s_struct in E.
+  - destruct v as [| | | | | |vs| | | | | | |]; try discriminate. rewrite enc_s_struct in E.
     destruct (enc_fields fs vs) as [xs|] eqn:EL; [|discriminate]. injection E as <-.
     rewrite dec_g_struct. cbn [strip is_nil].
     assert (G : dec_fields pt fs xs = Some vs).
@@ -129,6 +219,48 @@ Proof.
     + injection E as <-. cbn [dec_g strip is_nil]. exact P0.
     + destruct (slot <? 2 ^ 64); [|discriminate]. injection E as <-. cbn [dec_g strip is_nil]. apply P2.
   - destruct v; discriminate.
+  - (* SListI *)
+    destruct v as [| | | | |vs| | | | | | | |]; try discriminate. rewrite enc_s_listi in E.
+    destruct (enc_list e vs) as [xs|] eqn:EL; [|discriminate]. injection E as <-.
+    rewrite dec_g_listi. cbn [strip is_nil].
+    assert (G : dec_list pt e xs = Some vs).
+    { revert xs EL. induction vs as [|v r IHr]; intros xs EL; cbn [enc_list] in EL.
+      - injection EL as <-. reflexivity.
+      - destruct (enc_s e v) as [x|] eqn:Ev; [|discriminate]. destruct (enc_list e r) as [xr|] eqn:Er; [|discriminate].
+        injection EL as <-. cbn [dec_list]. rewrite (IH _ _ Ev), (IHr _ eq_refl). reflexivity. }
+    rewrite G. reflexivity.
+  - (* STagBytes *) destruct v; try discriminate. injection E as <-. reflexivity.
+  - (* SBytesN *) destruct v; try discriminate. cbn [enc_s] in E. destruct (len bs =? n) eqn:L; [|discriminate].
+    injection E as <-. apply N.eqb_eq in L. cbn [dec_g strip is_nil dec_bytes option_map]. rewrite (fixn_exact n bs L). reflexivity.
+  - (* STagAny *) destruct v as [| | | | | | | | | |t v0| | |]; try discriminate. destruct v0; try discriminate. cbn [enc_s] in E.
+    destruct (N.leb_spec 4 t) as [L|L]; [|discriminate]. injection E as <-.
+    cbn [dec_g is_nil]. unfold builtin_ok.
+    destruct (N.eqb_spec t 0); [lia|]. destruct (N.eqb_spec t 1); [lia|]. destruct (N.eqb_spec t 2); [lia|]. destruct (N.eqb_spec t 3); [lia|].
+    reflexivity.
+  - (* SAny *) destruct v; discriminate.
+  - (* SMapU *)
+    destruct v as [| | | | | | | | | | |kvs| |]; try discriminate. rewrite enc_s_map in E.
+    destruct (sorted_keys w kvs) eqn:SK; [|discriminate].
+    destruct (enc_kvs e kvs) as [xs|] eqn:EL; [|discriminate]. injection E as <-.
+    rewrite dec_g_map. cbn [strip is_nil].
+    assert (G : forall prev, dec_kvs pt w e prev xs = Some kvs).
+    { revert xs EL SK. induction kvs as [|[k v] r IHr]; intros xs EL SK prev; cbn [enc_kvs] in EL.
+      - injection EL as <-. reflexivity.
+      - destruct (enc_s e v) as [x|] eqn:Ev; [|discriminate]. destruct (enc_kvs e r) as [xr|] eqn:Er; [|discriminate].
+        injection EL as <-. cbn [dec_kvs]. cbn [sorted_keys] in SK. apply andb_true_iff in SK. destruct SK as [S1 S2].
+        apply andb_true_iff in S1. destruct S1 as [S0 _].
+        unfold dec_key. cbn [strip is_nil dec_uint]. unfold fit. rewrite S0.
+        rewrite (IH _ _ Ev), (IHr _ eq_refl S2). reflexivity. }
+    rewrite G, (sorted_nodup w kvs SK). reflexivity.
+  - (* SPeer *)
+    destruct v; try discriminate; cbn [enc_s] in E.
+    + destruct (addr <? 2 ^ 32) eqn:A; [|discriminate]. destruct (port <? 2 ^ 16) eqn:Pt; [|discriminate]. cbn [andb] in E.
+      injection E as <-. cbn [dec_g dec_peer N.eqb]. unfold dec_u. cbn [strip is_nil dec_uint]. unfold fit. rewrite A, Pt. reflexivity.
+    + destruct (a1 <? 2 ^ 32) eqn:A1; [|discriminate]. destruct (a2 <? 2 ^ 32) eqn:A2; [|discriminate].
+      destruct (a3 <? 2 ^ 32) eqn:A3; [|discriminate]. destruct (a4 <? 2 ^ 32) eqn:A4; [|discriminate].
+      destruct (port <? 2 ^ 16) eqn:Pt; [|discriminate]. cbn [andb] in E.
+      injection E as <-. cbn [dec_g dec_peer N.eqb Pos.eqb]. unfold dec_u. cbn [strip is_nil dec_uint]. unfold fit.
+      rewrite A1, A2, A3, A4, Pt. reflexivity.
 Qed.
 
 Lemma point_ok_fixed : point_ok dec_point.
